@@ -50,6 +50,10 @@ pub struct Case {
     pub position: &'static str,
     pub lang: Lang,
     pub prefixed: bool,
+    /// `#[typeshare(<this language>(type = "Xt"))]` on the field. Only judged together with a bare default on a
+    /// non-Option type: there every backend that honours overrides keeps its optional idiom (what an override does
+    /// to an `Option<T>` field differs between backends by design and is not C04's business).
+    pub type_override: bool,
 }
 
 pub fn gen(ch: &mut Chooser) -> Case {
@@ -59,7 +63,9 @@ pub fn gen(ch: &mut Chooser) -> Case {
     let default = if position.ends_with("field") { *ch.pick("default", &DEFAULTS) } else { "none" };
     let lang = *ch.pick("lang", &ALL_LANGS);
     let prefixed = ch.flag("cfg");
-    Case { base, wrapper, default, position, lang, prefixed }
+    let bare = matches!(default, "bare" | "merged-last" | "merged-first" | "separate-after-other-serde-attribute" | "separate-before-other-serde-attribute");
+    let type_override = position.ends_with("field") && wrapper == "T" && bare && lang != Lang::Python && ch.flag("own_language_type_override");
+    Case { base, wrapper, default, position, lang, prefixed, type_override }
 }
 
 pub fn program(c: &Case) -> File {
@@ -92,6 +98,9 @@ pub fn program(c: &Case) -> File {
             f.style = AttrStyle::SeparateReversed;
         }
         _ => {}
+    }
+    if c.type_override {
+        f.ts_args.push(format!("{}(type = \"Xt\")", c.lang.name()));
     }
     let ctl = Field::new("ctl", bt.clone());
     let generic = c.base == "T";
@@ -246,7 +255,11 @@ pub fn check_case(c: &Case, choices: &[u32], acc: &mut Acc) {
     if let Some(d) = &sopt.other_default {
         bad("foreign-default", "no default other than the optional idiom".into(), d.clone());
     }
-    // 2. the type under the marker equals the control's type
+    // 2. the type under the marker equals the control's type (an overridden type is whatever the user wrote)
+    if c.type_override {
+        acc.outcomes.insert(report::fnv64(&format!("{}|{marker}|override", c.lang.name())));
+        return;
+    }
     if c.lang == Lang::TypeScript {
         if sty != kty {
             bad("type-changed", kty.show(), sty.show());
@@ -304,7 +317,7 @@ pub fn run(args: &[String]) -> i32 {
         report::threads(),
         u64::MAX,
     );
-    merge(&mut rep, "optional_markers", accs, &stats, json!({"bases": BASES, "wrappers": WRAPPERS, "default_forms": DEFAULTS, "positions": POSITIONS, "languages": 6, "configs": 2}));
+    merge(&mut rep, "optional_markers", accs, &stats, json!({"bases": BASES, "wrappers": WRAPPERS, "default_forms": DEFAULTS, "positions": POSITIONS, "own_language_type_override": "with a bare default on a non-Option field (marker only)", "languages": 6, "configs": 2}));
     let amb_k = if rep.thorough() { 3 } else { 2 };
     super::common::ambient_family(&mut rep, "ambient_variations", amb_k + 1, |ch| { gen(ch); }, |ch, acc| {
         let c = gen(ch);
